@@ -284,6 +284,12 @@ def functional_recipes(rng, thorough=False):
         yield 'derived/scalar-sum/L1/' + n, lambda sp=sp: S.L1Norm(sp) + 1.25
         yield 'derived/quadratic-perturb/L1/' + n, lambda sp=sp: S.FunctionalQuadraticPerturb(S.L1Norm(sp), 0.5, g())
         yield 'derived/quadratic-perturb/linear-only/L2/' + n, lambda sp=sp: S.FunctionalQuadraticPerturb(S.L2Norm(sp), 0.0, g(), 0.3)
+        # linear base functionals: the perturbed functional is linear only without quadratic and constant part
+        yield 'derived/quadratic-perturb/linear-base/linear-term/' + n, lambda sp=sp: S.FunctionalQuadraticPerturb(S.ZeroFunctional(sp), 0.0, g())
+        yield 'derived/quadratic-perturb/linear-base/constant/' + n, lambda sp=sp: S.FunctionalQuadraticPerturb(S.ZeroFunctional(sp), 0.0, g(), 2.0)
+        yield 'derived/quadratic-perturb/linear-base/quadratic/' + n, lambda sp=sp: S.FunctionalQuadraticPerturb(S.QuadraticForm(vector=g()), 0.7)
+        yield 'derived/left-vector(quadratic-perturb/linear-base/constant)/' + n, \
+            lambda sp=sp: odl.rn(2).element([1.0, -2.0]) * S.FunctionalQuadraticPerturb(S.ZeroFunctional(sp), 0.0, g(), 2.0)
         yield 'derived/sum/L2sq+Huber/' + n, lambda sp=sp: S.L2NormSquared(sp) + S.Huber(sp, 0.3)
         yield 'derived/comp/L2sq*Scaling/' + n, lambda sp=sp: S.L2NormSquared(sp) * odl.ScalingOperator(sp, 2.0)
         yield 'derived/right-vector/L2sq/' + n, lambda sp=sp: S.L2NormSquared(sp) * g()
